@@ -37,6 +37,7 @@ type EnvSpec struct {
 	GCBefore bool  `json:"gc_before,omitempty"`
 	GOGC     int   `json:"gogc,omitempty"`            // 0 = leave
 	Pollute  int   `json:"pollute,omitempty"`         // unrelated builds first, in the same process
+	Again    bool  `json:"again,omitempty"`           // the history is built twice on ONE importer (same imported package objects, synthetic ones included); the second build is the measured one
 	Shared   bool  `json:"shared_importer,omitempty"` // standard packages come from one importer shared by all builds of the process
 	Twin     bool  `json:"twin,omitempty"`            // first build another revision of the same program's synthetic dependencies (same import paths, other contents)
 	Scramble int   `json:"scramble,omitempty"`        // small objects per size class allocated and partly freed (pattern from Ballast) so that later allocations fill holes in scrambled address order
@@ -53,7 +54,7 @@ var env *run.Env
 var ballastSink [][]byte
 var scrambleSink [][]byte
 var probeSink []*[96]byte
-var twinBuilds int
+var twinBuilds, againBuilds int
 var saltCounter int
 var addrFlips, addrProbes int
 
@@ -83,6 +84,7 @@ func gen(rt *rapid.T) any {
 		{MapDflt: 0, PoolDflt: -1},
 		{MapDflt: 1, PoolDflt: 0, Ballast: 256, GCBefore: true, Scramble: 200, Twin: true, Shared: true},
 		{MapDflt: 0, PoolDflt: -1, Shared: true},
+		{MapDflt: 0, PoolDflt: -1, Again: true},
 	}
 	n := rapid.IntRange(1, 3).Draw(rt, "nenv")
 	for i := 0; i < n; i++ {
@@ -102,6 +104,7 @@ func gen(rt *rapid.T) any {
 		e.Scramble = rapid.SampledFrom([]int{0, 0, 50, 400}).Draw(rt, "scramble")
 		e.Twin = rapid.Bool().Draw(rt, "twin")
 		e.Shared = rapid.Bool().Draw(rt, "shared_importer")
+		e.Again = rapid.IntRange(0, 2).Draw(rt, "again") == 0
 		r.Envs = append(r.Envs, e)
 	}
 	return r
@@ -197,6 +200,16 @@ func buildIn(r *Record, e EnvSpec) *built {
 	hooks := &minicl.Hooks{After: func(op string, x, y int) { ops = append(ops, op) }}
 	fr := *r.Front
 	fr.SharedImporter = e.Shared
+	if e.Again {
+		// a long-running client (or gogen's own test suite) keeps one importer for all its
+		// builds: whatever the first build left on the imported packages, or keyed by
+		// them, is there for the second
+		first := env.BuildSalted(r.Prog, &fr, nil, salt)
+		if first.Imp != nil && first.LoadErr == nil {
+			fr.ReuseImporter = first.Imp
+			againBuilds++
+		}
+	}
 	res := env.BuildSalted(r.Prog, &fr, hooks, salt)
 	return &built{res: res, hist: core.Hash(ops...), tapes: tp}
 }
@@ -497,7 +510,7 @@ func simplify(rec any) []any {
 		out = append(out, &c)
 	}
 	for i, e := range r.Envs {
-		if len(e.MapOrder) > 0 || len(e.Pool) > 0 || e.Ballast > 0 || e.Pollute > 0 || e.GOGC > 0 || e.Scramble > 0 || e.Twin || e.Shared {
+		if len(e.MapOrder) > 0 || len(e.Pool) > 0 || e.Ballast > 0 || e.Pollute > 0 || e.GOGC > 0 || e.Scramble > 0 || e.Twin || e.Shared || e.Again {
 			c := *r
 			c.Envs = append([]EnvSpec{}, r.Envs...)
 			c.Envs[i] = EnvSpec{Native: e.Native, MapDflt: e.MapDflt, PoolDflt: e.PoolDflt}
@@ -517,6 +530,7 @@ func TestSim(t *testing.T) {
 			"corpus_packages_admitted": env.Paths,
 			"cross_process_records":    xprocRuns,
 			"twin_pollution_builds":    twinBuilds,
+			"rebuilt_on_one_importer":  againBuilds,
 			"cross_process_batches":    xprocBatches,
 			"heap_layout_probe":        fmt.Sprintf("%d of %d probe allocation pairs came out in descending address order", addrFlips, addrProbes),
 		}
